@@ -240,3 +240,16 @@ pub fn pick(sel: u16, len: usize) -> Option<usize> {
         Some(((sel as usize) * len) >> 16)
     }
 }
+
+/// Topics made of URL-unreserved characters (the HTTP API does not percent-decode
+/// paths), still built around prefix families and the route table.
+pub fn topic_http_safe() -> BoxedStrategy<String> {
+    prop_oneof![
+        8 => proptest::sample::select(vec![
+            "", "a", "ab", "abc", "a.b", "a.b.c", "b", "a-", "a~", "a_", "version", "head/x", "head",
+            "03d4sq5pnxqgzj0xgqm4bwh0y", "x.register", "x.out", "casx", "imports",
+        ]).prop_map(|s| s.to_string()),
+        2 => "[a-c.~_-]{0,4}".prop_map(|s| s),
+    ]
+    .boxed()
+}
